@@ -265,13 +265,16 @@ func init() {
 	register(&PropCheck{ID: "C09", Level: "model_checking",
 		Rule:        "stall deviations: at every scheduling point of the default schedule one goroutine is made unschedulable for D in {1,6,11,35,5001,12000} virtual ms while timers and the other goroutines proceed (bound 1; pairs at bound 2), plus preemptions at bound 1; programs whose meaning fixes a single result",
 		Assumptions: commonAssumptions,
-		Budget:      budget(170*time.Second, 28*time.Minute),
+		Budget:      budget(240*time.Second, 28*time.Minute),
 		Units: func(tier string) []*Unit {
 			var us []*Unit
 			stalls := []int64{1, 6, 11, 35, 5001, 12000}
 			for _, s := range runScenarios("quick", true) {
 				if !s.Ref.Unique {
 					continue
+				}
+				if tier != "thorough" && strings.Contains(s.Name, "h=hang") && !strings.Contains(s.Name, "a=success,b=success") && !strings.Contains(s.Name, "a=success,h=") {
+					continue // quick tier: the never-ending sibling only next to the all-success vector
 				}
 				s1 := *s
 				s1.Name = s.Name + "/stalls"
